@@ -278,3 +278,26 @@ def unit_validate_empty():
                     raises={"FieldValueError": [Clause("not allowed_empty and value == ''", "raises-only-for-a-forbidden-empty-value", props=["C03"])]},
                     expect=["return", "FieldValueError"], n_loops=0, modifies=[])}
     return ProofUnit("fields.validate_empty", "validate_empty", ["C03"], make, ValidatedOracle(), xcheck=False)
+
+
+def unit_field_name_index():
+    def setup(ex, st):
+        names, c = fresh(UFList(STR), "available"); st.pc.extend(c); st.pc.append(names.length >= 1)
+        name = fresh(STR, "name")[0]
+        strip = ex.absfun_s("str_strip", [z3.StringSort()], z3.StringSort()); st.pc.append(strip(name.z) == name.z)       # precondition: callers pass a stripped name (asserted by the function)
+        st.frames[-1].env.update({"field_name_to_look_up": name, "available_field_names": names, "location": None})
+        st.ghost.update({"names": names, "name": name})
+    def present(ex, st):
+        names = st.ghost["names"]; j = z3.Int("j!p")
+        return Sym(BOOL, z3.Exists([j], z3.And(0 <= j, j < names.length, names.at(j) == G(st, "name"))))
+    def c_first(ex, st):
+        names = st.ghost["names"]; r = lift(st.ghost["__result__"]).z; j = z3.Int("j!f")
+        return Sym(BOOL, z3.ForAll([j], z3.Implies(z3.And(0 <= j, j < r), names.at(j) != G(st, "name"))))
+    def make(ctx):
+        c = Contract("fields.field_name_index", setup,
+                returns=[Clause("0 <= result and result < len(names) and names[result] == name", "the-result-is-a-position-of-the-name-among-the-available-names", props=["C05", "C09"]),
+                         Clause(c_first, "it-is-the-first-such-position", props=["C05"])],
+                raises={"InterfaceError": [Clause(lambda ex, st: Sym(BOOL, z3.Not(present(ex, st).z)), "refused-only-if-the-name-is-not-available", props=["C09", "C05"])]},
+                expect=["return", "InterfaceError"], raises_only_props=["C09", "C10"])
+        return {"contract": c, "callees": {"_tools.human_readable_list": ModelContract(m_opaque_str)}, "assumptions": ["list.index(x) is the first position holding x, ValueError if there is none (A-ITER)"]}
+    return ProofUnit("fields.field_name_index", "field_name_index: first position of the name among the available names; InterfaceError iff absent", ["C05", "C09", "C10"], make, None)
